@@ -121,7 +121,7 @@ func buildGen(repo, tmp string) string {
 	ov, _ := json.Marshal(map[string]any{"Replace": map[string]string{filepath.Join(abs, "cmd", "gozodgen", "zz_verif_hook.go"): hook}})
 	ovp := filepath.Join(tmp, "overlay.json")
 	os.WriteFile(ovp, ov, 0o644)
-	if out, rc, _ := goRun(abs, 10*time.Minute, "go", "build", "-overlay", ovp, "-o", gen, "./cmd/gozodgen"); rc != 0 {
+	if out, rc, _ := goBuild(abs, 10*time.Minute, "build", "-overlay", ovp, "-o", gen, "./cmd/gozodgen"); rc != 0 {
 		die("gozodgen (+ the overlaid hook calling smartSplitTagRules / parseTagRules) does not build:\n%s", out)
 	}
 	return gen
@@ -843,7 +843,10 @@ func runWide(o *hx.Out, tmp, gen string, rng *hx.Rng, thorough bool) {
 	rb.WriteString("}\n")
 	os.WriteFile(filepath.Join(dirW, "runner.go"), []byte(rb.String()), 0o644)
 	bin := filepath.Join(tmp, "runnerW")
-	if out, rc, _ := goRun(tmp, 30*time.Minute, "go", "build", "-trimpath", "-o", bin, "./ww"); rc != 0 {
+	if out, rc, _ := goBuild(tmp, 30*time.Minute, "build", "-trimpath", "-o", bin, "./ww"); rc != 0 {
+		if !regexp.MustCompile(`(?m)\.go:\d+:`).MatchString(out) {
+			die("the Go toolchain failed on the wide package without a source diagnostic (build cache trimmed concurrently?):\n%s", firstN(out, 2000))
+		}
 		o.Emit("c13 wbuild # the wide package (every field's tag compiles when alone) + runner: "+firstLine(strings.TrimPrefix(out, "# c13tmp/ww\n")), "fail")
 		fmt.Fprintln(os.Stderr, firstN(out, 3000))
 		return
